@@ -104,3 +104,32 @@ def full_range(node, bound_suffix):
     step = (inc.get('k') == 'UnaryOperator' and inc.get('op') == '++' and _show(inc['c'][0]) == var) or \
         (inc.get('k') == 'CompoundAssignOperator' and inc.get('op') == '+=' and _show(inc['c'][0]) == var and inc['c'][1].get('v') == 1)
     return bool(step) and _show(cond['c'][1]).replace(' ', '').endswith(bound_suffix)
+
+
+def generator_float_formats(prog, unit='src/pr_data.c'):
+    """Every floating-point conversion in the fprintf formats of the table generator: [(function, line, conversion text, significant
+    digits kept or None when the conversion keeps a fixed number of DECIMALS, float-suffix)].  %.NE keeps N+1 significant digits,
+    %.Ng keeps N; %f / %.Nf keep decimals, not significant digits; a literal suffix f makes the generated constant a float."""
+    import re as _re
+    from xvlib.facts import calls_in as _calls, strip_casts as _strip
+    out = []
+    for u in prog.units:
+        if u.get('rel') != unit:
+            continue
+        for f in u['functions']:
+            for c in _calls(f.get('body') or {}, 'fprintf'):
+                if len(c['args']) < 3:
+                    continue
+                fmt = _strip(c['args'][1]).get('val')
+                if not isinstance(fmt, str):
+                    continue
+                for m in _re.finditer(r'%[-+ 0#]*\d*(?:\.(\d+))?(?:l|L)?([feEgG])(f?)', fmt):
+                    prec, conv, suf = m.group(1), m.group(2), m.group(3)
+                    if conv in 'eE':
+                        digits = (int(prec) if prec is not None else 6) + 1
+                    elif conv in 'gG':
+                        digits = int(prec) if prec is not None else 6
+                    else:
+                        digits = None
+                    out.append((f['name'], c['ln'], m.group(0), digits, bool(suf), fmt))
+    return out
